@@ -6,7 +6,9 @@ CHECK = {
                     "decoder input octets are drawn from {00,01,7f,80,81,ff}; length <= 8 (quick, plus lengths 9..11 over {00,7f,80}) / 11 (thorough)",
                     "encoders are only given fresh buffers (offset = used = 0) of exactly the documented maximum size",
                     "sources deliver one octet per call and -ENODATA at the end; retry answers (0, -EINTR, -EAGAIN) are not part of this property's quantifier",
-                    "ASan red zones around exact-size heap blocks observe reads beyond the buffer's memory"],
+                    "ASan red zones around exact-size heap blocks observe reads beyond the buffer's memory",
+                    "'rejected as illegal' is read as the illegal-sequence code (-EILSEQ); where the unterminated digits also exceed the type's width "
+                    "(last octet of the maximum length carries bits beyond 32/64) a second failure class applies and any negative code is accepted"],
     "harnesses": [{
         "name": "c14_varint", "src": "harness/c14_varint.c", "shape": "espace", "opt": "-O2",
         "lib": ["src/variable-length-integer.c", "src/byte-buffer.c", "src/endpoints/core.c", "src/endpoints/buffer.c"],
